@@ -55,11 +55,19 @@ def gen_desc(rng, plain=True, maxtl=210):
         if rng.random() < 0.02:
             ln += rng.choice([1, 2, 50])                  # now and then beyond the 255-byte entry limit
         v = rbytes(rng, ln)
+        if t == 0xC2 and plain and rng.random() < 0.5:
+            v = rng.choice(ENC_NEAR)
         if plain and t == 0xC2 and v == b"\x02":
             v = b"\x00"
         d.append((t, v))
         tl += 2 + ln
+    if plain and rng.random() < 0.12 and all(t != 0xC2 for t, _ in d) and maxtl - tl >= 6:
+        # a plain component whose ENC tag is *almost* the session-key marker (numerically 2, or 02 followed by more)
+        d.insert(rng.randrange(len(d) + 1), (0xC2, rng.choice(ENC_NEAR)))
     return d
+
+
+ENC_NEAR = [b"\x00\x02", b"\x02\x00", b"\x00\x00\x02", b"\x02\x02", b"", b"\x00", b"\x01", b"\x03", b"\x82", b"\x00\x00\x00\x02"]
 
 
 def show_desc(d):
